@@ -221,14 +221,14 @@ def coq_obligations(prop, extra_targets=()):
     import fcntl
     fcntl.flock(lock, fcntl.LOCK_EX)
     try:
-        r = sh("cd %s && timeout 3000 make -j16 %s %s 2>&1" % (coqdir, target, " ".join(extra_targets)))
+        r = sh("cd %s && ulimit -s unlimited; timeout 3000 make -j16 %s %s 2>&1" % (coqdir, target, " ".join(extra_targets)))
     finally:
         fcntl.flock(lock, fcntl.LOCK_UN)
     log = r.stdout
     res["log"] = log[-6000:]
     txt = open(src, encoding="utf-8").read()
-    res["theorems"] = re.findall(r"^\s*(?:Theorem|Lemma)\s+(\w+)", txt, flags=re.M)
-    res["pins"] = re.findall(r"^\s*Check\s+(\w+)\s*:", txt, flags=re.M)
+    res["theorems"] = re.findall(r"^\s*(?:Theorem|Lemma|Definition)\s+(\w+)", txt, flags=re.M)
+    res["pins"] = re.findall(r"^\s*Check\s+(\w+)\s*[:.]", txt, flags=re.M)
     if r.returncode != 0:
         m = re.search(r'File "\./([^"]+)", line (\d+)', log)
         res["failed"] = "%s:%s" % (m.group(1), m.group(2)) if m else "make failed"
